@@ -449,7 +449,8 @@ func decFilter(f *pb.Filter) string {
 	case "ColumnPaginationFilter":
 		m := &pb.ColumnPaginationFilter{}
 		if proto.Unmarshal(s, m) == nil {
-			return "ColumnPagination(" + strconv.Itoa(int(m.GetLimit())) + "," + strconv.Itoa(int(m.GetOffset())) + "," + hx(m.GetColumnOffset()) + ")"
+			// (the server chooses the filter's mode by the presence of column_offset, even an empty one)
+			return "ColumnPagination(" + strconv.Itoa(int(m.GetLimit())) + "," + strconv.Itoa(int(m.GetOffset())) + "," + hxPresent(m.ColumnOffset) + ")"
 		}
 	case "MultipleColumnPrefixFilter":
 		m := &pb.MultipleColumnPrefixFilter{}
@@ -542,6 +543,14 @@ func decFilter(f *pb.Filter) string {
 		}
 	}
 	return "unknown/" + hx([]byte(f.GetName())) + "/" + hx(s)
+}
+
+// hxPresent: hex of a byte string that may be absent (nil: "_") — absent and empty differ on the wire.
+func hxPresent(b []byte) string {
+	if b == nil {
+		return "_"
+	}
+	return hx(b)
 }
 
 func decCompare(c *pb.CompareFilter) string {
@@ -1081,7 +1090,7 @@ func (f fltSpec) render() string {
 	case 11:
 		return "ColumnCountGet(" + strconv.FormatInt(f.n, 10) + ")"
 	case 12:
-		return "ColumnPagination(" + strconv.FormatInt(f.n, 10) + "," + strconv.FormatInt(f.n2, 10) + "," + hx(f.arg) + ")"
+		return "ColumnPagination(" + strconv.FormatInt(f.n, 10) + "," + strconv.FormatInt(f.n2, 10) + "," + hxPresent(f.arg) + ")"
 	case 13:
 		parts := []string{}
 		for _, x := range f.list {
@@ -1635,7 +1644,14 @@ func genFlt(r *RNG, depth int) fltSpec {
 	case 11:
 		return fltSpec{kind: 11, n: int64(r.Intn(100))}
 	case 12:
-		return fltSpec{kind: 12, n: int64(1 + r.Intn(100)), n2: int64(r.Intn(50)), arg: r.Bytes(3, c05Alpha)}
+		f := fltSpec{kind: 12, n: int64(1 + r.Intn(100)), n2: int64(r.Intn(50)), arg: r.Bytes(3, c05Alpha)}
+		switch r.Intn(4) {
+		case 0:
+			f.arg = nil // no column offset: the integer offset counts
+		case 1:
+			f.arg = []byte{} // an empty column offset is a column offset
+		}
+		return f
 	case 13:
 		f := fltSpec{kind: 13}
 		for i, n := 0, 1+r.Intn(3); i < n; i++ {
@@ -2495,9 +2511,9 @@ func runC05(tier string, seed uint64, out *Out) {
 		out.Line("%s", l)
 	}
 	// table-administration requests: the schema on the wire is the one the caller described
-	nAdmin := 60
+	nAdmin := 160
 	if tier != "quick" {
-		nAdmin = 600
+		nAdmin = 1600
 	}
 	for i := 0; i < nAdmin; i++ {
 		out.Line("%s", adminCase(NewRNG(seed, fmt.Sprintf("c05admin-%d", i))))
@@ -2896,7 +2912,11 @@ func adminCase(r *RNG) string {
 		var opts []func(hrpc.Call) error
 		if withDest {
 			// a host name may itself contain no comma; the start code takes all 64 bits
-			opts = append(opts, hrpc.WithDestinationRegionServer(fmt.Sprintf("%s,%d,%d", host, port, start)))
+			name := fmt.Sprintf("%s,%d,%d", host, port, start)
+			if r.Intn(2) == 0 { // zero-padded decimal fields are decimal fields
+				name = fmt.Sprintf("%s,%06d,%020d", host, port, start)
+			}
+			opts = append(opts, hrpc.WithDestinationRegionServer(name))
 		}
 		mv, err := hrpc.NewMoveRegion(ctx, region, opts...)
 		d := &pb.MoveRegionRequest{}
